@@ -30,6 +30,9 @@ def phase_variants():
     out.append({'phase': 'die_by_exception', 'exc': 'KeyboardInterrupt'})
     out.append({'phase': 'die_by_exception', 'exc': 'SystemExit'})
     out.append({'phase': 'flood_then_die', 'lines': 1500})
+    # what a natively crashing helper leaves on stderr is not necessarily text: a few lines of raw
+    # bytes that are not valid UTF-8 (output of a C library in a legacy locale, a corrupted buffer)
+    out.append({'phase': 'flood_then_die', 'lines': 3, 'binary': True})
     return out
 
 
